@@ -266,14 +266,59 @@ func runC09(tier string) int {
 			r.Sample(map[string]interface{}{"source": src, "switches": sw, "directives": got})
 		}
 	})
-	if !done {
+	// the size dimension: texts of K parts for every K up to a bound, in a text statement and inline, every string type
+	maxK := 60
+	if tier == "thorough" {
+		maxK = 300
+	}
+	longDone := r.Parallel(uint64(maxK)*uint64(len(c09Types))*2, func(w int, idx uint64) {
+		inline := idx%2 == 1
+		x := idx / 2
+		typ := c09Types[x%uint64(len(c09Types))]
+		k := int(x/uint64(len(c09Types))) + 4
+		var qs, want []string
+		for i := 0; i < k; i++ {
+			p := fmt.Sprintf("part %d é", i)
+			if i < k-1 {
+				p += []string{`\n`, `\l`, `\p`}[i%3]
+			}
+			qs = append(qs, quote(p))
+			want = append(want, p)
+		}
+		want[k-1] += terminatorOf(typ)
+		lit := typ + strings.Join(qs, "\n\t\t")
+		src, label := "text T {\n\t"+lit+"\n}\n", "T"
+		if inline {
+			src, label = "script S {\n\tmsgbox("+lit+", X)\n}\n", "S_Text_0"
+		}
+		res := comp.Compile(src, comp.Opts{FontPath: fpath})
+		r.Add("evaluations", 1)
+		r.Add("nontrivial", 1)
+		r.Add("long_texts", 1)
+		dirName := "string"
+		if typ != "" {
+			dirName = typ
+		}
+		got, ok := directiveLines(res.Out, label)
+		good := res.Err == nil && res.Panic == "" && ok && len(got) == len(want)
+		if good {
+			for i := range got {
+				good = good && got[i][0] == dirName && got[i][1] == want[i]
+			}
+		}
+		if !good {
+			r.Report(harness.Violation{Sig: "C09:long-text", Summary: fmt.Sprintf("text of %d parts (type %q, inline=%v): error %v, %d directives", k, typ, inline, res.Err, len(got)), Replay: map[string]interface{}{"source": src, "want_lines": want, "directive": dirName, "output": res.Out}})
+		}
+	})
+	if !done || !longDone {
 		r.NotExhaustive("enumeration not completed within the budget")
 	}
+	r.Set("long_text_max_parts", maxK+3)
 	r.Set("max_content_length", maxLen)
 	r.Set("origins", c09Origins)
 	r.Assume("a newline inside a literal (and the indentation after it) stands for one space, as the lexer documents",
 		"contents whose terminator would straddle two parts are not generated (the property can be read both ways there)",
 		"for format() origins the source lines are the lines of the exported FormatText's result (its content is C07's business)")
 	return r.Finish(r.Get("evaluations"), r.Get("nontrivial"),
-		"every content of total length <= L over {a, é, space, $, \\, 0, n, p, {, }, newline-inside-literal} split into 1-3 literal parts x 3 layouts (same line / one part per line / several comment lines between the parts) x 4 string types x 16 origins (argument of an AutoVar command standing first / in the middle / last in &&- and ||-chains of if, while and do...while conditions and as a switch operand, text statement, inline argument, format() of each, poryswitch case selected directly / through '_' / brace form, argument inside an if, after / before a typed inline text in the same command, after typed texts elsewhere); non-trivial = >= 2 parts and a string type")
+		"every content of total length <= L over {a, é, space, $, \\, 0, n, p, {, }, newline-inside-literal} split into 1-3 literal parts x 3 layouts (same line / one part per line / several comment lines between the parts) x 4 string types x 16 origins (argument of an AutoVar command standing first / in the middle / last in &&- and ||-chains of if, while and do...while conditions and as a switch operand, text statement, inline argument, format() of each, poryswitch case selected directly / through '_' / brace form, argument inside an if, after / before a typed inline text in the same command, after typed texts elsewhere); plus texts of K parts for every K up to the bound in the coverage (statement and inline, every string type); non-trivial = >= 2 parts and a string type")
 }
